@@ -289,6 +289,24 @@ def run_incremental(logL, ns, mode, kind, nlive, track):
     }
 
 
+def run_refinalise(logL, ns, mode, track):
+    """finalise() is a pure read of the lists: calling it early (a refined intermediate estimate), then
+    incrementing further and finalising again must give the evidence / weights of ALL the points."""
+    from nessai.evidence import _NSIntegralState
+
+    m = len(logL)
+    st = _NSIntegralState(int(ns[0]), track_gradients=track, expectation=mode)
+    half = max(1, m // 2)
+    for l, n in zip(logL[:half], ns[:half]):
+        st.increment(l, nlive=int(n))
+    st.finalise()
+    for l, n in zip(logL[half:], ns[half:]):
+        st.increment(l, nlive=int(n))
+    ret = st.finalise()
+    return {"z": float(st.log_evidence), "ret": float(ret),
+            "w": np.asarray(st.log_posterior_weights, dtype=float), "lv": np.asarray(st.log_vols, dtype=float)}
+
+
 def run_onepass(logL, ns, mode, kind, nlive, variant):
     from nessai.posterior import compute_weights
 
@@ -406,6 +424,17 @@ def check_instance(mode, kind, nlive, ns, logL, shifts=(), exact=True, track=Tru
             cmp_w("weights", "incremental (after finalise)", inc["w"], orc["logw"], tol["w"])
             cmp_w("weights", "incremental (read again after the effective sample size was queried)",
                   inc["w_again"], orc["logw"], tol["w"])
+
+    # ---- (i') finalise early, increment further, finalise again
+    if not degenerate and m >= 2:
+        try:
+            ref = run_refinalise(logL, ns, mode, track)
+            stats["refinalised"] = stats.get("refinalised", 0) + 1
+            cmp_z("logZ", "incremental (finalise, further increments, finalise again)", ref["z"], orc["logz"], tol["z"])
+            cmp_w("weights", "incremental (after the second finalise)", ref["w"], orc["logw"], tol["w"])
+            cmp_w("vols", "incremental (after the second finalise)", ref["lv"], orc["lv"], tol["vol"])
+        except Exception as ex:  # noqa: BLE001
+            fail("exception", f"_NSIntegralState raised {type(ex).__name__}: {ex} (finalise twice)")
 
     # ---- (ii) one pass
     variants = (["int"] if kind == "const" else []) + ["array_int", "array_float"]
